@@ -42,6 +42,14 @@ Theorem C02_qr_gray_path : forall (n : nat) (col row : asg), diffs n col row <> 
 Proof. exact gray_path_ok. Qed.
 Print Assumptions C02_qr_gray_path.
 
+(* the whole circuit: block k of the sequence uses the matrix M (k + 1); the gate list generated from the list of (col, row) pairs
+   alone acts as the composition of the two-level operators, first block first *)
+Theorem C02_qr_circuit : forall (M : nat -> mat2) (n : nat), M 0 = Xm -> forall (prs : list (asg * asg)) (k : nat) (psi : state),
+  forallb (fun cr => qr_pre n (fst cr) (snd cr)) prs = true ->
+  mrun M (qr_circuit n k prs) psi = qr_ops M n k prs psi.
+Proof. exact qr_circuit_sem. Qed.
+Print Assumptions C02_qr_circuit.
+
 Example ex_pre : qr_pre 3 1%N 6%N = true.
 Proof. vm_compute. reflexivity. Qed.
 
